@@ -353,10 +353,34 @@ def rule_parser(ctx, mod, sh, mean, model):
     foreign = nd.other_class(alphabet | set("ABCDEFG"), "FOREIGNSUFFIX")
     for label, tail in (("foreign-char", [foreign]), ("m+foreign", ["m", foreign]), ("foreign+7", [foreign, "7"])):
         run = nd.acc_run("R")
-        paths = _eval_from_shorthand(ctx, fi, model, lambda: [AbsStr(["C", run] + tail)])
+        try:
+            paths = _eval_from_shorthand(ctx, fi, model, lambda: [AbsStr(["C", run] + tail)])
+        except CannotDecide as e:
+            # the parser asks something about the foreign character that the class does not settle (its lower case, say):
+            # no statement about the class; the case variants below are texts of their own
+            ctx.note(R, "unknown-suffix[%s]: no statement about the whole class (%s)" % (label, short(str(e), 80)))
+            continue
         ok = bool(paths) and all(p.kind == "raise" and p.value == "FormatError" for p in paths)
         ctx.check(ok, R, "unknown-suffix[%s]" % label, fi.where(), "from_shorthand(C..<%s>)" % label,
                   "an unknown shorthand gives %s instead of FormatError" % [(p.kind, p.value) for p in paths])
+    # shorthands are case-sensitive ('M7' and 'm7' are different chords): a key written in another case is no key
+    variants = set()
+    for key in known:
+        for v_ in (key.upper(), key.capitalize(), key.title(), key.swapcase()):
+            if v_ != key and v_ not in known and any(c.isupper() and c != "M" for c in v_):
+                variants.add(v_)
+    variants |= {"M7b5".replace("M", "M"), "Maj7", "MAJ7", "Min7", "MIN", "Mi7", "DIM", "Aug", "SUS", "Sus"} - set(known)
+    bad = []
+    for v_ in sorted(variants):
+        for root in ("C", "Eb"):
+            try:
+                paths = _eval_from_shorthand(ctx, fi, model, lambda: [root + v_])
+            except (CannotDecide, nd.Shape) as e:
+                raise AnalysisError("from_shorthand(%r): %s" % (root + v_, e))
+            if not (paths and all(p.kind == "raise" and p.value in ("FormatError", "NoteFormatError") for p in paths)):
+                bad.append((root + v_, [(p.kind, short(repr(p.value), 40)) for p in paths]))
+    ctx.check(not bad, R, "unknown-suffix[case variants]", fi.where(), "from_shorthand(<root + a shorthand written in another case>) for %d texts" % (2 * len(variants)),
+              "%d are accepted, e.g. %s" % (len(bad), bad[:3]))
     badhead = nd.other_class(set("ABCDEFG") | set("minaj-"), "FOREIGNHEAD")
     for label, s in (("foreign-head", AbsStr([badhead, "m7"])), ("lowercase", "cm7"), ("H", "H7")):
         paths = _eval_from_shorthand(ctx, fi, model, lambda: [s])
